@@ -697,6 +697,37 @@ def party_arithmetic(facts, rep):
                                        "the sender sends share %s while being party %s: it forwards a share it is not the designated "
                                        "sender of" % ([IE.evaluate(ia, {v: i}) for i in range(3)], [p_[0] for p_ in pairs]), b.loc(ib))
             k += 1
+    # the zero sharing itself: alpha_i = PRF(k_i) - PRF(k_{i+1}); party i holds exactly keys i and i+1
+    zb = facts.body("mpc::mpc_compiler::recursively_generate_node_shares")
+    if rep.anchor("C02.D", "recursively_generate_node_shares", zb):
+        zfl = Flow(facts, zb, EXTRA)
+        found = 0
+        for bb, t in zb.calls():
+            if callee_name(t) not in ("graphs::Graph::subtract", "graphs::Node::subtract") or zb.is_cleanup(bb):
+                continue
+            idxs = []
+            for a in [x for x in t["args"] if x[0] != "k" and "graphs::Node" in zb.local_ty(x[1][0])]:
+                cone = _additive_cone(zb, zfl, a, (bb, None))
+                for ib in cone:
+                    ti = zb.term(ib)
+                    if (callee_name(ti) or "").endswith("::index") and len(ti["args"]) == 2 and ti["args"][1][0] != "k":
+                        ro = zfl.origins(ti["args"][0], (ib, None))
+                        if any(o[0] == "call" and o[2] in ("graphs::Graph::prf", "graphs::Node::prf") for o in ro):
+                            idxs.append(IE.build(zfl, zb, ti["args"][1]))
+            if len(idxs) != 2:
+                continue
+            vs_ = IE.variables(idxs[0]) | IE.variables(idxs[1])
+            if len(vs_) != 1:
+                continue
+            v = list(vs_)[0]
+            pairs = [(IE.evaluate(idxs[0], {v: i}), IE.evaluate(idxs[1], {v: i})) for i in range(3)]
+            found += 1
+            ok = all(x == i and y == (i + 1) % 3 for i, (x, y) in enumerate(pairs))
+            rep.ob("C02.D", "recursively_generate_node_shares|alpha", ok,
+                   "alpha_i = PRF(k_i) - PRF(k_(i+1)): key indices %s" % pairs if ok else
+                   "share i of the zero sharing uses keys %s; party i holds keys i and i+1 only, so it cannot compute its own share" % pairs,
+                   zb.loc(bb))
+        rep.ob("C02.D", "recursively_generate_node_shares|alpha-found", found >= 1, "difference of two indexed PRF outputs found (%d)" % found)
     rep.analysed["send_sites_with_evaluated_party_arithmetic"] = n
     rep.floor("C02.D", "Send sites whose parties are a function of one index variable", n, 5)
 
